@@ -210,7 +210,7 @@ def search(ctx, broken, corr_failures):
     return out
 
 
-KNOWN = ("C04:ImageBatch.avg_pool:kernel-tuple-order", "C04:ImageBatch.upsample:fractional-size:shape-mismatch")
+KNOWN = ()
 
 
 def explains(broken_item, found):
@@ -257,9 +257,7 @@ MANIFEST_ENTRY = {
             "narrow, region of interest, pooling, resize, resample, downsample (all axes, no minimum size, Qc instance, any D and level count) and "
             "upsample with integral float size. Partial: Gaussian pre-smoothing enters through oracle tap values + the stencil lemma; downsample with "
             "a dims subset / positive min_size and 3-D pad / roi shape lemmas are compared in the correspondence only; float rounding is outside the "
-            "exact model. REFUTED on the "
-            "code (faithful model, vm_compute witness + implementation replay, known findings): upsample after a fractional-size downsample "
-            "doubles the tensor shape while the grid restores the original size; avg_pool with a tuple kernel reads it in opposite orders for "
-            "data and grid (recorded by ok_pool_aniso). Repaired in /repo and now part of the positive statements / correspondence: same-shape "
-            "resample, narrow on per-image grids, 2-D region_of_interest, n-D conv kernels, sample(one Grid) on N>1 images. Trusted: Coq kernel, vm_compute, translator, torch kernel semantics (validated by correspondence).",
+            "exact model. All defects found on the original tree (same-shape resample, fractional-size upsample, avg_pool tuple order, narrow on per-image "
+            "grids, 2-D region_of_interest, n-D conv kernels, one-grid sampling of N>1 batches) are repaired in /repo and are now part of the positive "
+            "statements, traced cases and correspondence; their oracle keys are kept as regression probes. Trusted: Coq kernel, vm_compute, translator, torch kernel semantics (validated by correspondence).",
 }
